@@ -256,3 +256,14 @@ Print Assumptions C10_load_trace_monitor_accepts_model.
 Theorem C10_delete_trace_monitor_accepts_model : delete_trace_ok [Sev 9 1 0] = true /\ lts_delete = Some [9%Z].
 Proof. exact delete_trace_ok_of_model. Qed.
 Print Assumptions C10_delete_trace_monitor_accepts_model.
+
+(** List after a SIGKILLed writer and List racing in-flight Stores: an accepted case has every
+    committed key in every listing (directory and ancestors, recursive or not) *)
+Theorem C10_list_after_crash_monitor_sound : forall acked started loaded missing,
+  check_crash_list acked started loaded missing = 0%Z ->
+  missing = 0%Z /\ (loaded = acked \/ loaded = started) /\ (started = acked \/ started = (acked + 1)%Z).
+Proof. exact check_crash_list_sound. Qed.
+Print Assumptions C10_list_after_crash_monitor_sound.
+Theorem C10_list_race_monitor_sound : forall lists missing, check_list_race lists missing = 0%Z -> missing = 0%Z.
+Proof. exact check_list_race_sound. Qed.
+Print Assumptions C10_list_race_monitor_sound.
